@@ -2,7 +2,7 @@
 operator clause of C28)."""
 import ast
 
-from .core import AnalysisError, iter_nodes, norm
+from .core import AnalysisError, iter_nodes, norm, cnorm, cnorm_text
 from . import astq
 from .astq import parents, calls_named, definitions, enclosing_ifs, const_int, attr_tail
 from .linform import Lin, to_lin
@@ -272,7 +272,7 @@ def rule_OP3(ctx, rep):
         rep.bad('OP3', pi, pi.qualname, '__int__ does not select signed_()/unsigned_() by is_signed', pi.node)
     sg = model.func('finfields::PrimeFieldElement.signed_')
     cond = [i for i in iter_nodes(sg.node) if isinstance(i, ast.If)]
-    okc = cond and norm(cond[0].test) in ('v > self.modulus >> 1', 'v > self.modulus // 2') and any(isinstance(x, ast.AugAssign) and isinstance(x.op, ast.Sub) and norm(x.value) == 'self.modulus' for x in cond[0].body)
+    okc = cond and cnorm(cond[0].test) in (cnorm_text('v > self.modulus >> 1'), cnorm_text('v > self.modulus // 2')) and any(isinstance(x, ast.AugAssign) and isinstance(x.op, ast.Sub) and norm(x.value) == 'self.modulus' for x in cond[0].body)
     if okc:
         rep.ok('OP3', sg, cond[0].test, 'signed representative: subtract the modulus above modulus/2')
     else:
